@@ -124,3 +124,17 @@ Proof.
   intros blob decode. exact (loader_detects_count_mismatch blob decode).
 Qed.
 Print Assumptions C03_loader_detects_count_mismatch.
+
+(* Observation, outside the property's quantifier (process-pool savers): a forked saver whose chunks
+   are written by child processes keeps the overall start / end of the metadata it was given (absent
+   for Plugin.metadata), whatever was saved: the chunk list is collected in sorted order, the overall
+   range is never filled in. *)
+Theorem C03_forked_overall_range_untouched :
+  forall (blob : Type) (encode : Z -> list row -> blob) (bsize : blob -> Z) cfg md0 jobs (s1 s2 : saver blob),
+    save_children blob encode bsize cfg (init_saver md0) jobs = Ok s1 -> close s1 false = Ok s2 ->
+    md_start (sv_disk s2) = md_start md0 /\ md_end (sv_disk s2) = md_end md0 /\
+    md_chunks (sv_disk s2) = map snd (sort_by_key (sv_meta_files s1)).
+Proof.
+  intros blob encode bsize. exact (forked_overall_range_untouched blob encode bsize).
+Qed.
+Print Assumptions C03_forked_overall_range_untouched.
